@@ -434,7 +434,10 @@ def main(chk, args):
                 else:
                     la_, lb_ = la, lb
                 calls = []
-                for c0 in bypat[p]:
+                todo = bypat[p]
+                if ads and len(todo) > 60:      # the Ads share: a seeded sample of the rounds of this pattern
+                    todo = [todo[j] for j in sorted(rnd.sample(range(len(todo)), 60))]
+                for c0 in todo:
                     c = dict(c0)
                     c['_T'] = (lambda s, la=la_, lb=lb_: ''.join(la if ch == 'a' else lb if ch == 'b' else ch for ch in s))
                     c['_cmap'] = {'a': la_, 'b': lb_}
@@ -565,7 +568,7 @@ def main(chk, args):
     def _val(ix):
         return tlc.validate_all('ResourcePathTrace', 'ResourcePathTrace.cfg', [traces[t] for t in ix], timeout=2400,
                                 env={'JAVA_TOOL_OPTIONS': '-Xmx3g'})
-    with ThreadPoolExecutor(6) as ex:
+    with ThreadPoolExecutor(8) as ex:
         vres = list(ex.map(_val, shards))
     acc_calls = 0
     nrej = 0
